@@ -1389,6 +1389,8 @@ struct Gen
 			size_t N = (size_t) (small ? r.pick(std::vector<long long>{3, 4, 5, 8}) : opts.tier == "thorough" ? r.pick(Ns) : r.pick(NsQuick));
 			if(opts.tier != "thorough" && !small && r.chance(0.05))
 				N = 2000;
+			if(!small && r.chance(0.3))
+				N = (size_t) (r.chance(0.7) ? r.irange(3, 70) : r.irange(70, 400));   // any size, not only the hand-picked ones
 			t.x = abscissae(r, N);
 			t.f = ordinates(r, N);
 			// Rare-condition bias: make the one-sided end slope estimate p tiny (same sign as the secant), so that the end cubic
